@@ -53,9 +53,18 @@ def run(ctx):
                         "a compile) x every producing operation")
     outs = [objrun.run_history(c, o) for c, o in items]
     got = ask_parallel([objrun.request(c, o) for c, o in items], chunk=400)
+    def settings_view(h):
+        # C18 is about which settings are accepted and under which settings anything is produced - not about the bits of the
+        # symbol (C01/C05/C09): the content hashes of matrices / images / texts and of the final module matrix are dropped,
+        # their presence, kind, sizes, border and box size are kept
+        import re as _re
+        h = _re.sub(r"\b(m:\d+):\d+", r"\1", h)
+        h = _re.sub(r"\b(i:-?\d+:-?\d+:-?\d+):\d+", r"\1", h)
+        h = _re.sub(r"\b(t:-?\d+):\d+", r"\1", h)
+        return _re.sub(r"(S:(?:[^: ]*:){9})[^: ]*", r"\1", h)
     for (ctor, ops), e, g in zip(items, outs, got):
         key = objrun.request(ctor, ops)
-        R.corr("history", key, e, g, tag="P2:" + ("ctor" if len(ops) == 3 and ops[-1] in ("getm", "img") else "assign"))
+        R.corr("history", key, settings_view(e), settings_view(g), tag="P2:" + ("ctor" if len(ops) == 3 and ops[-1] in ("getm", "img") else "assign"))
         # P3: the property's own predicate on the implementation's behaviour
         problems = []
         version, _, box, border, mask = ctor
